@@ -92,6 +92,9 @@ func (g G) DualConfig() []DualItem {
 			for _, nm := range Subset(g, refNames, 70) {
 				it.Body = append(it.Body, DualItem{Kind: "attr", Name: nm, Value: ptrDV(g.dualValue(2))})
 			}
+			if g.Chance(45) {
+				it.Body = append(it.Body, DualItem{Kind: "block", Name: "meta", Body: []DualItem{{Kind: "attr", Name: "note", Value: ptrDV(g.dualLitString())}}})
+			}
 			items = append(items, it)
 		case 2:
 			typ, nm := Pick(g, append([]string{"other"}, refTypes...)), Pick(g, refNames)
